@@ -130,10 +130,8 @@ def ghost_of(prog):
 def next_ops(g, via, max_mods=4, max_pars=4, max_children=2, fresh_names=FRESH, meths=METHS):
     """all operations that extend a program with ghost g.  Symmetry reduction: unused module / parameter slots are
     interchangeable, so only the lowest unused one may be introduced; per module only the first unused fresh name."""
-    mods = list(g.usedM) or [0]
-    freshM = [len(mods)] if len(mods) < max_mods and g.usedM else ([] if g.usedM else [])
-    if not g.usedM:
-        mods, freshM = [0], []
+    mods = list(g.usedM)
+    freshM = [len(mods)] if len(mods) < max_mods else []
     pars = list(g.usedP) + ([len(g.usedP)] if len(g.usedP) < max_pars else [])
     out = []
     for m in mods + freshM:
@@ -159,19 +157,21 @@ def next_ops(g, via, max_mods=4, max_pars=4, max_children=2, fresh_names=FRESH, 
         if len(used) < max_mods:
             for kind in ("pos", "od"):
                 out.append(("seq", kind, len(used), ch))
-    for m in mods:
+    for m in mods + freshM:
         out.extend(("call", m, f) for f in meths)
     return out
 
 
 def enumerate_from(prefix, depth, via, **kw):
-    """all programs that extend `prefix` (a tuple of ops) by 0..depth further operations, prefix included"""
-    def rec(prog, g, d):
-        yield prog, g
+    """all programs that extend `prefix` (a tuple of ops) by 0..depth further operations, prefix included, as
+    (program, ghost after, ghost before the last operation)"""
+    def rec(prog, g, g0, d):
+        yield prog, g, g0
         if d:
             for op in next_ops(g, via, **kw):
-                yield from rec(prog + (op,), g.copy().apply(op), d - 1)
-    yield from rec(tuple(prefix), ghost_of(prefix), depth)
+                yield from rec(prog + (op,), g.copy().apply(op), g, d - 1)
+    prefix = tuple(prefix)
+    yield from rec(prefix, ghost_of(prefix), ghost_of(prefix[:-1]), depth)
 
 
 # ------------------------------------------------------------------------------------------------------ real world
@@ -251,33 +251,54 @@ def seq_expect(g, j, x, order, log):
     return x
 
 
-def check(prog):
+def consistent(w, g):
+    """registry invariant Inv: the real registries (_submodules / _parameters, None entries ignored) hold exactly the ghost's
+    current registrations.  Every contract assumes Inv before the call; the operation that breaks it is the one blamed."""
+    pid = {id(p): k for k, p in w.P.items()}
+    for j, mod in w.M.items():
+        em, ep = {}, {}
+        for name, v in g.cur.get(j, {}).items():
+            if v[0] == "M":
+                em[name] = v[1]
+            elif v[0] == "P":
+                ep[name] = v[1]
+        if {nm: getattr(m, "slot", "?") for nm, m in mod._submodules.items() if m is not None} != em:
+            return False
+        if {nm: pid.get(id(q), "?") for nm, q in mod._parameters.items() if q is not None} != ep:
+            return False
+    return True
+
+
+def check(prog, g=None, g0=None):
     """run the program on real objects, evaluate the contracts of its LAST operation and of the observers on the final
-    state.  Returns (n_clause_evaluations, [(obligation, what, detail)]).  Raises Invalid for non-programs."""
-    g = Ghost()
+    state.  Returns (n_clause_evaluations, fails, downstream) with entries (obligation, what, detail); `downstream` holds
+    failures seen in a state whose registry invariant an EARLIER clause failure already broke (reported there, counted here).
+    Raises Invalid for non-programs.  g / g0: ghost after / before the last operation (recomputed when not supplied)."""
+    if not prog:
+        return 0, [], []
+    if g is None:
+        g0 = ghost_of(prog[:-1])
+        g = g0.copy().apply(prog[-1])
     w = World()
-    fails = []
+    fails, down = [], []
     n = 0
+    pre_ok = True
     for i, op in enumerate(prog):
-        last = i == len(prog) - 1
-        if last:
-            g0 = g.copy()
-            for s in g.usedM:
+        if i == len(prog) - 1:
+            for s in g0.usedM:
                 w.mod(s)
-            for s in g.usedP:
+            for s in g0.usedP:
                 w.par(s)
-        g.apply(op)
-        if last:
             if op[0] == "call":
                 w.mod(op[1])
             old_tr, old_p = w.flags()
+            pre_ok = consistent(w, g0)
         try:
             w.run(op)
         except Exception as e:  # the space contains only legal calls
-            fails.append((api_of(op) + ".completes", "legal call raised %s: %s" % (type(e).__name__, e), {"step": i}))
-            return n + 1, fails
-    if not prog:
-        return 0, fails
+            ok = pre_ok and i == len(prog) - 1
+            (fails if ok else down).append((api_of(op) + ".completes", "legal call raised %s: %s" % (type(e).__name__, e), {"step": i}))
+            return n + 1, fails, down
     for s in g.usedM:
         w.mod(s)
     for s in g.usedP:
@@ -285,20 +306,31 @@ def check(prog):
     api = api_of(op)
     new_tr, new_p = w.flags()
     pid = {id(p): k for k, p in w.P.items()}
+    post_ok = consistent(w, g)
+    sink = fails if pre_ok else down
 
-    def ck(cond, obligation, what, **detail):
+    def ck(cond, obligation, fmt, args=(), detail=None):
         nonlocal n
         n += 1
         if not cond:
-            fails.append((obligation, what, detail))
+            sink.append((obligation, fmt % args, detail or {}))
+
+    def nm(x):
+        return "P%s" % pid[id(x)] if id(x) in pid else ("M%s" % x.slot if isinstance(x, Module) else repr(x))
+
+    def pub(f):
+        try:
+            return [nm(x) for x in f()]
+        except Exception as e:
+            return "raised " + type(e).__name__
 
     # ---- contract of the last operation: effect on exactly the reachable set, frame for everything else
     exp_tr = dict(old_tr)
     exp_rg = {k: v[0] for k, v in old_p.items()}
-    zeroed = set()
+    zeroed, reach, rp = (), (), ()
     if op[0] == "call":
         reach = g.reach_mods(op[1])
-        rp = set(g.params(op[1], g.oS))
+        rp = g.params(op[1], g.oS)
         if op[2] in ("train", "eval"):
             for j in reach:
                 exp_tr[j] = op[2] == "train"
@@ -307,36 +339,37 @@ def check(prog):
                 exp_rg[k] = op[2] == "unfreeze"
         else:
             zeroed = rp
-    for j in new_tr:
-        if j in old_tr:
-            inreach = op[0] == "call" and op[2] in ("train", "eval") and j in reach
-            ck(new_tr[j] == exp_tr[j], api + (".sets_every_reachable_submodule" if inreach else ".leaves_unreachable_modules_alone"),
-               "M%d.training is %s, contract says %s" % (j, new_tr[j], exp_tr[j]), module=j)
-    for k in new_p:
-        if k not in old_p:
-            continue
-        inreach = op[0] == "call" and op[2] in ("freeze", "unfreeze") and k in rp
-        ck(new_p[k][0] == exp_rg[k], api + (".acts_on_every_reachable_parameter" if inreach else ".leaves_other_parameters_alone"),
-           "P%d.requires_grad is %s, contract says %s" % (k, new_p[k][0], exp_rg[k]), param=k)
-        gnew, gold = new_p[k][2], old_p[k][2]
-        same = gnew is not None and gold is not None and gnew.shape == gold.shape and np.array_equal(gnew, gold)
-        iszero = gnew is not None and gnew.shape == (SIZES[k],) and not gnew.any()
-        if k in zeroed and old_p[k][0]:
-            ck(iszero, api + ".zeroes_every_reachable_trainable_parameter", "P%d._grad is %r, expected zeros" % (k, gnew), param=k)
-        elif k in zeroed:   # reachable but frozen: the property admits both readings (zeroed or skipped)
-            ck(iszero or same, api + ".zeroes_every_reachable_trainable_parameter", "P%d._grad is %r" % (k, gnew), param=k)
+    mode_call = op[0] == "call" and op[2] in ("train", "eval")
+    frz_call = op[0] == "call" and op[2] in ("freeze", "unfreeze")
+    for j, tr in old_tr.items():
+        ck(new_tr[j] == exp_tr[j], api + (".sets_every_reachable_submodule" if mode_call and j in reach else ".leaves_other_modules_alone"),
+           "M%d.training is %s, contract says %s", (j, new_tr[j], exp_tr[j]), {"module": j})
+    for k, (orq, _, gold) in old_p.items():
+        nrq, _, gnew = new_p[k]
+        ck(nrq == exp_rg[k], api + (".acts_on_every_reachable_parameter" if frz_call and k in rp else ".leaves_other_parameters_alone"),
+           "P%d.requires_grad is %s, contract says %s", (k, nrq, exp_rg[k]), {"param": k})
+        same = gnew is not None and gold is not None and gnew.shape == gold.shape and bool((gnew == gold).all())
+        if k in zeroed:
+            iszero = gnew is not None and gnew.shape == (SIZES[k],) and not gnew.any()
+            # a reachable but frozen parameter: the property admits both readings (zeroed or skipped)
+            ck(iszero or (same and not orq), api + ".zeroes_every_reachable_trainable_parameter", "P%d._grad is %r, expected zeros", (k, gnew), {"param": k})
         else:
-            ck(same, api + ".leaves_other_gradients_alone", "P%d._grad changed from %r to %r" % (k, gold, gnew), param=k)
+            ck(same, api + ".leaves_other_gradients_alone", "P%d._grad changed from %r to %r", (k, gold, gnew), {"param": k})
     if op[0] == "set":
         tgt, v, name = w.M[op[1]], w.value(op[3]), op[2]
         old = g0.cur.get(op[1], {}).get(name)
-        ck(getattr(tgt, name, "<missing>") is v, api + ".getattr_returns_new_value", "M%d.%s is %r" % (op[1], name, getattr(tgt, name, None)))
-        rm, rp_ = tgt._submodules.get(name), tgt._parameters.get(name)
-        ok = (rm is v if op[3][0] == "M" else rm is None) and (rp_ is v if op[3][0] == "P" else rp_ is None)
-        ck(ok, api + ".replaces_registration",
-           "after M%d.%s = %s the registries still hold module=%s parameter=%s under that name"
-           % (op[1], name, KIND[op[3][0]], None if rm is None else "M%s" % getattr(rm, "slot", "?"), None if rp_ is None else "P%s" % pid.get(id(rp_))),
-           old_kind=KIND[old[0]] if old else "absent", new_kind=KIND[op[3][0]])
+        got = getattr(tgt, name, "<missing>")
+        ck(got is v, api + ".getattr_returns_new_value", "M%d.%s is %s", (op[1], name, nm(got)))
+        rm, rq = tgt._submodules.get(name), tgt._parameters.get(name)
+        ok = (rm is v if op[3][0] == "M" else rm is None) and (rq is v if op[3][0] == "P" else rq is None)
+        ck(ok, api + ".replaces_registration", "after M%d.%s = %s the old registration is still there (registered under that name: module=%s parameter=%s); M%d.parameters() = %s, M%d.submodules() = %s",
+           (op[1], name, nm(v), nm(rm), nm(rq), op[1], pub(tgt.parameters), op[1], pub(tgt.submodules)),
+           {"old_kind": KIND[old[0]] if old else "absent", "new_kind": KIND[op[3][0]]})
+        if ok:
+            ck(post_ok, api + ".leaves_other_registrations_alone", "registries differ from the ghost after M%d.%s = %s", (op[1], name, nm(v)))
+    else:
+        ck(post_ok, api + (".registers_its_arguments" if op[0] == "seq" else ".leaves_registrations_alone"), "registries differ from the ghost after %s", (op,))
+    sink = fails if post_ok else down      # observers assume Inv on the state they observe
     # ---- observers on the final state, every module taken as root
     for j in g.usedM:
         mod = w.M[j]
@@ -344,22 +377,24 @@ def check(prog):
             real = [pid.get(id(p), "?") for p in mod.parameters()]
             counts = (mod.num_params(), mod.num_params(trainable=True), mod.num_params(non_trainable=True))
         except Exception as e:
-            fails.append(("nn.Module.parameters.completes", "raised %s: %s" % (type(e).__name__, e), {"root": j}))
-            n += 1
+            ck(False, "nn.Module.parameters.completes", "M%d.parameters() raised %s: %s", (j, type(e).__name__, e), {"root": j})
             continue
-        eS, eA = g.params(j, g.oS), g.params(j, g.oA)
-        d = dict(root=j, actual=real, expected=eS)
-        ck(len(set(real)) == len(real), "nn.Module.parameters.each_once", "M%d.parameters() = %s lists a parameter more than once (expected %s)" % (j, ["P%s" % k for k in real], ["P%s" % k for k in eS]), **d)
-        ck(set(eS) <= set(real), "nn.Module.parameters.every_reachable", "M%d.parameters() = %s misses a reachable parameter of %s" % (j, real, eS), **d)
-        ck(set(real) <= set(eS), "nn.Module.parameters.only_reachable", "M%d.parameters() = %s contains a parameter that is not reachable (ghost: %s)" % (j, real, eS), **d)
-        if set(real) == set(eS):
+        eS = g.params(j, g.oS)
+        sr, se = set(real), set(eS)
+        d = {"root": j, "actual": real, "expected": eS}
+        ck(len(sr) == len(real), "nn.Module.parameters.each_once", "M%d.parameters() = P%s lists a parameter more than once (reachable: P%s)", (j, real, eS), d)
+        ck(se <= sr, "nn.Module.parameters.every_reachable", "M%d.parameters() = P%s misses a reachable parameter of P%s", (j, real, eS), d)
+        ck(sr <= se, "nn.Module.parameters.only_reachable", "M%d.parameters() = P%s contains a parameter that is no longer registered (reachable: P%s)", (j, real, eS), d)
+        if sr == se:
             first = list(dict.fromkeys(real))
-            ck(first in (eS, eA), "nn.Module.parameters.registration_order", "M%d.parameters() order %s, registration order %s" % (j, first, eS), **d)
-        rg = {k: w.P[k].requires_grad for k in eS}
-        exp = (sum(SIZES[k] for k in eS), sum(SIZES[k] for k in eS if rg[k]), sum(SIZES[k] for k in eS if not rg[k]))
-        for which, a, e in zip(("total", "trainable", "non_trainable"), counts, exp):
-            ck(a == e, "nn.Module.num_params." + which, "M%d.num_params(%s) = %d, reachable parameters %s have %d such elements" % (j, which, a, ["P%d" % k for k in eS], e),
-               root=j, actual=a, expected=e)
+            ck(first == eS or first == g.params(j, g.oA), "nn.Module.parameters.registration_order", "M%d.parameters() order P%s, registration order P%s", (j, first, eS), d)
+        tot = tr = 0
+        for k in eS:
+            tot += SIZES[k]
+            tr += SIZES[k] if w.P[k].requires_grad else 0
+        for which, a, e in (("total", counts[0], tot), ("trainable", counts[1], tr), ("non_trainable", counts[2], tot - tr)):
+            ck(a == e, "nn.Module.num_params." + which, "M%d.num_params(%s) = %d, the reachable parameters P%s have %d such elements", (j, which, a, eS, e),
+               {"root": j, "actual": a, "expected": e})
         if j in g.seq:
             del LOG[:]
             elogS, elogA = [], []
@@ -367,15 +402,15 @@ def check(prog):
             try:
                 out = mod(1)
             except Exception as e:
-                ck(False, "nn.Sequential.forward.completes", "M%d(x) raised %s: %s (registered submodules: %s)" % (j, type(e).__name__, e, g.children(j)),
-                   root=j, n_submodules=len(g.children(j)))
+                ck(False, "nn.Sequential.forward.completes", "M%d(x) raised %s: %s (registered submodules: M%s)", (j, type(e).__name__, e, g.children(j)),
+                   {"root": j, "n_submodules": len(g.children(j))})
                 continue
-            ck((list(LOG), out) in ((elogS, eoutS), (elogA, eoutA)), "nn.Sequential.forward.registration_order",
-               "M%d(1) applied modules %s -> %r, registration order is %s -> %r" % (j, list(LOG), out, elogS, eoutS), root=j, actual=list(LOG), expected=elogS)
+            ck((LOG, out) == (elogS, eoutS) or (LOG, out) == (elogA, eoutA), "nn.Sequential.forward.registration_order",
+               "M%d(1) applied M%s -> %r, registration order is M%s -> %r", (j, list(LOG), out, elogS, eoutS), {"root": j, "actual": list(LOG), "expected": elogS})
     for m, d in g.cur.items():
         for name, val in d.items():
-            ck(getattr(w.M[m], name, "<missing>") is w.value(val), "nn.Module.__getattr__.returns_registered_value", "M%d.%s is not the value last assigned" % (m, name))
-    return n, fails
+            ck(getattr(w.M[m], name, "<missing>") is w.value(val), "nn.Module.__getattr__.returns_assigned_value", "M%d.%s is not the value last assigned", (m, name))
+    return n, fails, down
 
 
 # ------------------------------------------------------------------------------------------------------- features
@@ -420,11 +455,29 @@ def features(prog):
 
 
 def primary(feats):
-    for p in PRIORITY:
+    """the feature reported as the trigger: kind-changing re-assignments first (to None, to a plain value, parameter<->module),
+    then sharing, empty Sequential, same-kind replacement, ..."""
+    def rank(x):
+        old, new = x[len("reassign_"):].split("_to_")
+        return (("none", "int", "param", "module").index(new), x)
+    re_ = [x for x in feats if x.startswith("reassign_")]
+    cross = sorted((x for x in re_ if rank(x)[1].split("_")[1] != x.rsplit("_", 1)[1]), key=rank)
+    if cross:
+        return cross[0]
+    for p in PRIORITY[1:4]:
+        if p in feats:
+            return p
+    if re_:
+        return sorted(re_)[0]
+    for p in PRIORITY[4:]:
         hit = sorted(x for x in feats if x.startswith(p))
         if hit:
-            return "+".join(hit) if p == "reassign_" else hit[0]
+            return hit[0]
     return "basic"
+
+
+def family(feat):
+    return "reassign" if feat.startswith("reassign_") else "sharing" if feat.startswith("shared_") else feat
 
 
 def shrink(prog, obligation):
@@ -436,7 +489,7 @@ def shrink(prog, obligation):
         for i in range(len(prog)):
             cand = prog[:i] + prog[i + 1:]
             try:
-                if cand and any(o == obligation for o, _, _ in check(cand)[1]):
+                if cand and any(o[0] == obligation for o in check(cand)[1]):
                     prog, changed = cand, True
                     break
             except Invalid:
